@@ -144,6 +144,8 @@ fn check(args: &Args) -> i32 {
         }
         "C18" => {
             parts.push(run_part(&iosim::IoSim, &cfg("iosim"), &known, &mut verdict));
+            // the TCP / Unix wrappers and Braid arms over real kernel sockets (fault-free)
+            parts.push(run_part(&iosim::RealIoSim, &cfg("realio"), &known, &mut verdict));
         }
         "C02" | "C03" | "C04" | "C05" | "C06" | "C14" | "C15" | "C17" | "C19" => {
             if property == "C19" {
@@ -246,6 +248,7 @@ fn replay(args: &Args) -> i32 {
         "tlsmode" => replay_with(&e2e::tlsmode::TlsSim, &rf, args.machine),
         "srvfault" => replay_with(&e2e::srvfault::SrvFaultSim, &rf, args.machine),
         "realsock" => replay_with(&e2e::realsock::RealSockSim, &rf, args.machine),
+        "realio" => replay_with(&iosim::RealIoSim, &rf, args.machine),
         "timersim" => replay_with(&timersim::TimerSim, &rf, args.machine),
         "poolsim" => replay_with(&poolsim::PoolSim { property: leak(&rf.property) }, &rf, args.machine),
         other => {
@@ -282,6 +285,7 @@ fn determinism(args: &Args) -> i32 {
         "C12" => determinism_with(&e2e::tlsmode::TlsSim, args),
         "C09" | "srvfault" => determinism_with(&e2e::srvfault::SrvFaultSim, args),
         "realsock" => determinism_with(&e2e::realsock::RealSockSim, args),
+        "realio" => determinism_with(&iosim::RealIoSim, args),
         "timersim" => determinism_with(&timersim::TimerSim, args),
         "grammar" => determinism_with(&e2e::grammar::GrammarSim, args),
         "C10" | "C11" | "eyesim" => determinism_with(&eyesim::EyeSim { property: "C10" }, args),
